@@ -945,3 +945,77 @@ Example entity_iter_example :
   filter (fun i => negb (ent_deleted KV ex_deleted i)) (seq 0 (ent_n KV ex_deleted)) = [0; 1; 2; 4; 5] /\
   filter (fun i => negb (ent_deleted KC ex_deleted i)) (seq 0 (ent_n KC ex_deleted)) = [1].
 Proof. vm_compute. repeat split. Qed.
+
+(* ================================================================== the six boundary iterators on a mesh state *)
+
+Definition bdry (k : kind) (s : mesh) (i : nat) : bool :=
+  match is_boundary k s i with Some true => true | _ => false end.
+
+(* the brute-force boundary predicate of each kind (halfedges: that of their edge) *)
+Definition bnd_of (k : kind) (s : mesh) (i : nat) : Prop :=
+  match k with
+  | KV => bnd_v s i | KE => bnd_e s i | KHE => bnd_e s (i / 2)
+  | KF => bnd_f s i | KHF => bnd_hf s i | KC => bnd_c s i
+  | KM => False
+  end.
+
+Lemma is_boundary_defined k s : k <> KM -> bu_exact s -> wf_iter s -> bnd_has_inc k s = true -> fbu s = true ->
+  forall i, i < ent_n k s -> ent_deleted k s i = false ->
+  is_boundary k s i = Some (bdry k s i) /\ (bdry k s i = true <-> bnd_of k s i).
+Proof.
+  intros Hk BU WF Hi Ff i Hn Hd. unfold bdry.
+  assert (G : forall b P, is_boundary k s i = Some b /\ (b = true <-> P) ->
+              is_boundary k s i = Some (match is_boundary k s i with Some true => true | _ => false end) /\
+              ((match is_boundary k s i with Some true => true | _ => false end) = true <-> P)).
+  { intros b P (E & I). rewrite E. destruct b; auto. }
+  unfold ent_n, count in Hn. destruct k; try congruence; unfold bnd_has_inc in Hi; cbn [is_boundary bnd_of] in *.
+  - destruct (isb_v_exact s BU WF i Hi Hn) as (b & E). eapply G; eauto.
+  - apply andb_true_iff in Hi. destruct Hi as (Fe & _). destruct (isb_e_exact s BU WF i Fe Ff Hn) as (b & E). eapply G; eauto.
+  - apply andb_true_iff in Hi. destruct Hi as (Fe & _). destruct (isb_he_exact s BU WF i Fe Ff Hn) as (b & E). eapply G; eauto.
+  - destruct (isb_f_exact s BU WF i Ff Hn) as (b & E). eapply G; eauto.
+  - destruct (isb_hf_exact s BU WF i Ff Hn) as (b & E). eapply G; eauto.
+  - assert (L : live_c s i = true) by (unfold live_c; unfold ent_deleted in Hd; rewrite Hd; apply andb_true_iff; split; [apply Nat.ltb_lt; exact Hn|reflexivity]).
+    destruct (isb_c_exact s BU WF i Ff L) as (b & E). eapply G; eauto.
+Qed.
+
+(* bv_iter / bhe_iter / be_iter / bhf_iter / bf_iter / bc_iter (the latter with face incidences enabled, see D8)
+   visit exactly the not-deleted entities that the brute-force scan classifies as boundary, ascending, once *)
+Theorem boundary_iter_exact k s : k <> KM -> bu_exact s -> wf_iter s -> flags_sized s ->
+  bnd_has_inc k s = true -> fbu s = true ->
+  (exists b e, bnd_begin k s = Some b /\
+               b_trace (S (ent_n k s)) (ent_rdel k s) (ent_n k s) (is_boundary k s) b
+               = Some (map Z.of_nat (filter (fun i => negb (ent_deleted k s i) && bdry k s i) (seq 0 (ent_n k s))), e) /\
+               b_valid e = false) /\
+  (forall i, i < ent_n k s -> ent_deleted k s i = false -> (bdry k s i = true <-> bnd_of k s i)).
+Proof.
+  intros Hk BU WF FS Hi Ff. split.
+  - unfold bnd_begin. rewrite Hi.
+    apply (boundary_forward (ent_n k s) (ent_deleted k s) (ent_rdel k s) (ent_rdel_total k s Hk FS) (bdry k s) (is_boundary k s)); [|apply le_n].
+    intros i Hn Hd. apply (is_boundary_defined k s Hk BU WF Hi Ff i Hn Hd).
+  - intros i Hn Hd. apply (is_boundary_defined k s Hk BU WF Hi Ff i Hn Hd).
+Qed.
+
+Example boundary_iter_example :
+  exists b e, bnd_begin KV ex_two_tets = Some b /\
+              b_trace 8 (ent_rdel KV ex_two_tets) 7 (is_boundary KV ex_two_tets) b = Some ([0%Z; 1%Z; 2%Z; 3%Z; 4%Z], e) /\ b_valid e = false.
+Proof. eexists. eexists. vm_compute. repeat split. Qed.
+
+(* ================================================================== BoundaryHalfFaceHalfFaceIter *)
+Theorem bhfhf_exact s : bu_exact s -> wf_iter s -> ebu s = true -> fbu s = true ->
+  forall hf, live_f s (hf / 2) = true ->
+  forall x, In x (l_bhfhf s hf) <-> exists he, In he (halfface s hf) /\ inc_hehf s (opp he) x /\ bnd_hf s x.
+Proof.
+  intros BU WF Fe Ff hf L x. unfold l_bhfhf. rewrite Ff, in_flat_map.
+  assert (T : forall y, y < 2 * nf s -> (isb_hf_t s y = true <-> bnd_hf s y)).
+  { intros y Hy. destruct BU as (_ & _ & Bf). unfold isb_hf_t, bnd_hf. destruct (cell_of s y) as [c0|] eqn:E.
+    - split; [discriminate|]. intros B. exfalso. apply (B c0). apply (Bf Ff y Hy). exact E.
+    - split; [|reflexivity]. intros _ c Hc. apply (Bf Ff y Hy) in Hc. congruence. }
+  split.
+  - intros (he & Hhe & Hx). apply filter_In in Hx. destruct Hx as (Hx & B).
+    pose proof (halfface_he_live s hf he WF L Hhe) as Le. pose proof (live_e_lt _ _ Le).
+    apply (hehf_exact s BU (opp he) Fe) in Hx; [|apply opp_lt_iff; lia].
+    exists he. split; [exact Hhe|]. split; [exact Hx|]. apply T; [apply Hx|exact B].
+  - intros (he & Hhe & Hx & B). exists he. split; [exact Hhe|]. apply filter_In.
+    pose proof (halfface_he_live s hf he WF L Hhe) as Le. pose proof (live_e_lt _ _ Le).
+    split; [apply (hehf_exact s BU (opp he) Fe); [apply opp_lt_iff; lia|exact Hx]|]. apply T; [apply Hx|exact B].
+Qed.
